@@ -303,7 +303,9 @@ step(void) {
   } ev[VX_MAXALT];
   uint8_t cost[VX_MAXALT];
   int n = 0;
-  if (C->inject && events_done == C->inject_at)
+  /* inject_at < 0: a persistent attacker, one cleartext datagram before every step (also between the library's decision to
+   * abandon a handshake and the moment the dead session is reclaimed, and after it) */
+  if (C->inject && (events_done == C->inject_at || C->inject_at < 0))
     inject_cleartext();
   if (C->release_at >= 0 && events_done == C->release_at && !released) {
     vx_observe("t=%llu APP releases the session", (unsigned long long)ns_now());
@@ -715,6 +717,13 @@ main(int argc, char **argv) {
       c.cl = CL_WRONG_KEY;
       add(c);
     }
+  /* a persistent attacker: cleartext before every step of the whole scenario (matching / mismatching credentials, to the end) */
+  for (int who = 1; who <= 2; who++)
+    for (int cl = 0; cl < 2; cl++)
+      for (int mr = 0; mr <= (T ? 2 : 1); mr++) {
+        struct cfg c = {.sv = SV_SINGLE, .cl = cl, .ncon = 1, .inject = who, .inject_at = -1, .release_at = -1, .maxretx = mr, .bound = T ? 1 : 0};
+        add(c);
+      }
   /* the application releases the session mid-handshake */
   for (int at = 0; at <= 8; at += (T ? 1 : 2))
     for (int cl = 0; cl < 2; cl++) {
